@@ -364,6 +364,32 @@ pub fn gen(seed: u64, n: usize, tier: &str) -> Vec<Case> {
         big.push(ekscan("ESSCAN", b"big", 0, p, c, None)); for _ in 0..3 { big.push(ekscan("ESSCAN", b"big", -1, p, c, None)); }
     }
     cases.push(Case { id: "b-big".into(), ops: big, outs: vec![] });
+    // sparse matches: long runs of elements the filter rejects (whole pages come back empty) before,
+    // between and after the matching ones, on a static space; complete iterations with small COUNTs
+    for (id, (na, nm, nz)) in [(3usize, 25usize, 3usize), (0, 40, 2), (2, 12, 0), (1, 60, 5)].iter().enumerate() {
+        let mut ops = vec![];
+        for k in 0..*na { ops.push(e("ESET", vec![bv(format!("a:{}", k).as_bytes()), bv(b"v"), i(-1)])); }
+        for k in 0..*nm { if k % 7 == 3 { ops.push(e("ELPUSH", vec![bv(format!("m:{:02}", k).as_bytes()), bv(b"x")])); } else { ops.push(e("ESET", vec![bv(format!("m:{:02}", k).as_bytes()), bv(b"v"), i(-1)])); } }
+        for k in 0..*nz { ops.push(e("ESET", vec![bv(format!("z:{}", k).as_bytes()), bv(b"v"), i(-1)])); ops.push(e("ELPUSH", vec![bv(format!("z:l{}", k).as_bytes()), bv(b"x")])); }
+        for (pat, ty) in [(Some(&b"z:*"[..]), None), (Some(&b"a:*"[..]), None), (Some(&b"*:l?"[..]), None), (Some(&b"z:*"[..]), Some(&b"list"[..])), (None, Some(&b"list"[..])), (Some(&b"nomatch*"[..]), None)] {
+            for count in [1i64, 2, 3, 10] {
+                let total = na + nm + 2 * nz;
+                ops.push(escan(0, pat, ty, count));
+                for _ in 0..(total as i64 / count + 2) { ops.push(escan(-1, pat, ty, count)); }
+            }
+        }
+        // the same inside one key: members of a set / fields of a hash / members of a sorted set
+        let mut v = vec![bv(b"S")]; for k in 0..*nm { v.push(bv(format!("m:{:02}", k).as_bytes())); } for k in 0..*nz { v.push(bv(format!("z:{}", k).as_bytes())); } ops.push(e("ESADD", v));
+        for k in 0..*nm { ops.push(e("EHSET", vec![bv(b"H"), bv(format!("m:{:02}", k).as_bytes()), bv(b"w")])); }
+        for k in 0..*nz { ops.push(e("EHSET", vec![bv(b"H"), bv(format!("z:{}", k).as_bytes()), bv(b"w")])); }
+        for (name, key) in [("ESSCAN", &b"S"[..]), ("EHSCAN", b"H")] {
+            for count in [1i64, 3] {
+                ops.push(ekscan(name, key, 0, Some(b"z:*"), count, if name == "EHSCAN" { Some(false) } else { None }));
+                for _ in 0..((nm + nz) as i64 / count + 2) { ops.push(ekscan(name, key, -1, Some(b"z:*"), count, if name == "EHSCAN" { Some(false) } else { None })); }
+            }
+        }
+        cases.push(Case { id: format!("e-sparse-{}", id), ops, outs: vec![] });
+    }
     let nx = if tier == "thorough" { n / 10 } else { n / 15 };
     for id in 0..n {
         let ops = match id % 5 { 0 | 1 => gen_keyspace(&mut r, false), 2 | 3 => gen_collections(&mut r, false), _ => gen_tcp(&mut r) };
